@@ -73,10 +73,17 @@ def nontrivial(e):
     return True
 
 
+def _own_ids():
+    """ids of the findings fragment of this check (other fragments may list C16 too, with witnesses in their own case format)"""
+    p = os.path.join(fw.ROOT, "findings", "C16.json")
+    return {e["id"] for e in json.load(open(p))} if os.path.exists(p) else set()
+
+
 def _witness_cases(ctx):
     ws = []
+    own = _own_ids()
     for k in ctx.known:
-        if k.get("status") == "open" and "C16" in k.get("properties", []) and k.get("witness"):
+        if k["id"] in own and k.get("status") == "open" and "C16" in k.get("properties", []) and k.get("witness"):
             w = dict(k["witness"])
             w["src"] = "witness"
             ws.append((k["id"], w))
@@ -185,12 +192,13 @@ def run(ctx):
                     "per forked, memory-capped process) in a debug and a release build, Trace_C16 judges every outcome.",
         extra={"notes": ctx.notes},
         required_cover=["exp:must", "exp:never", "exp:may", "out:ok", "out:err", "out:panic", "build:debug", "build:release",
-                        "isolated", "batch", "src:cell", "src:str", "src:fuzz", "src:witness", "str:empty", "str:1MB",
+                        "isolated", "src:cell", "src:str", "src:fuzz", "src:witness", "str:empty", "str:1MB",
                         "str:non-ascii", "str:isize-limit-exponent", "str:underscore", "arg:inf", "arg:prec0", "arg:prec1",
                         "arg:huge-exponent", "arg:huge-count", "arg:radix-edge", "arg:zero", "arg:one", "arg:primitive",
                         "arg:multiword", "cell:must/panic", "cell:never/ok", "cell:never/err", "fam:parse", "fam:div",
                         "fam:f_ln", "fam:f_exp", "fam:f_powi", "fam:f_shl", "fam:r_parts", "fam:radix", "fam:gcd",
-                        "fam:nth_root", "fam:ilog", "fam:ring_new", "verdict:must", "verdict:never", "verdict:may"])
+                        "fam:nth_root", "fam:ilog", "fam:ring_new", "verdict:must", "verdict:never", "verdict:may"]
+                       + ctx.pick(["batch"], []))
 
 
 SELFTEST_CASES = [
